@@ -72,6 +72,12 @@ CHECKS = {
              "all terminal states are replayed; every single corruption (drop/shift tick-0 tempo or signature, duplicate / swap / regress a tempo tick, zero tempo at each position, resolution 0) of seeded charts, and a zero tempo x event kind x placement table, "
              "are parsed and queried and judged by TLC evaluating Props!C15V.",
         design="5 (C15)", technique="TLA+ model checking (TLC) of reject branches + fault enumeration replayed into the parser + TLC trace validation"),
+    "C06": dict(
+        text="TLC model-checks the framing scanner Framing.tla (one step per line, the code's branches) against the declarative SectionsOf on every tail of <= 5 (11 tokens) / <= 7 (7 tokens) lines; "
+             "all well-formed tails and a seeded slice of the others are replayed behind the three required sections with note lines whose ticks encode their file position; all 40 headers singly, "
+             "pairs (260 seeded quick / all 780 thorough), seeded subsets up to all 40, permutations of 6 sections, LF/CRLF x BOM x entry point, unknown sections at every position, each required "
+             "section removed, seeded bodies of 0-15 lines per section: every record is judged by TLC evaluating Props!C06V against the format's own routing table.",
+        design="5 (C06)", technique="TLA+ model checking (TLC) of the scanner + spec->code replay + TLC trace validation of routing / independence records"),
 }
 
 PENDING = {}
